@@ -1420,10 +1420,14 @@ class CGen:
                 handled = True
             elif name == "vp_run_thread":
                 runs = [n for n in self.live_funcs if "_State_impl" in n and n.endswith("6_M_runEv") and n in self.m.funcs and not self.m.funcs[n].is_decl]
-                if len(runs) != 1:
-                    raise IRError("vp_run_thread: expected exactly one std::thread::_State_impl::_M_run, found %d" % len(runs))
-                rf = self.m.funcs[runs[0]]
-                st.append("%s((%s)vp_thr_state);" % (self.gname(runs[0]), self.ctype(rf.params[0][0])))
+                if not runs:
+                    raise IRError("vp_run_thread: no std::thread::_State_impl::_M_run in the module")
+                parts = []
+                for rn in sorted(runs):
+                    rf = self.m.funcs[rn]
+                    parts.append("if ((*(u8***)vp_thr_state)[2] == (u8*)&%s) { %s((%s)vp_thr_state); }" % (self.gname(rn), self.gname(rn), self.ctype(rf.params[0][0])))
+                parts.append('{ __CPROVER_assert(0, "HARNESS:vp_run_thread: no thread body matches"); }')
+                st.append(" else ".join(parts))
                 handled = True
             elif name == "vp_spawn":
                 fnv = args[0]
